@@ -482,6 +482,9 @@ func (e *Exec) unary(v *ast.UnaryExpr, c *Ctx) Term {
 	case token.ADD:
 		return e.eval(v.X, c)
 	case token.AND:
+		if cell, ok := e.addrCells[v]; ok && !c.spec {
+			return cell // &x.fld passed to a call: the cell set up by call2 (copy-in / copy-out)
+		}
 		if cl, ok := v.X.(*ast.CompositeLit); ok {
 			if !c.spec {
 				if pt := e.prog.TypeOf(c.fr.info.Types[v].Type, c.fr.subst); pt.K == KRef && pt.Name == "" && pt.Elem != nil && (pt.Elem.K == KMap || pt.Elem.K == KSlice) {
